@@ -38,7 +38,8 @@ func (o *c12Observer) WrapStreamingHandler(next StreamingHandlerFunc) StreamingH
 
 // extra codec names: none, a plain one, and one that itself contains the '+'
 // that separates protocol and codec in the media type.
-var c12ExtraNames = []string{"", "x", "x+y"}
+// ... and one whose Connect unary media type coincides with a gRPC one.
+var c12ExtraNames = []string{"", "x", "x+y", "grpc"}
 
 // c12Passive is a second, do-nothing interceptor.
 type c12Passive struct{}
@@ -106,7 +107,15 @@ func c12Accepted(kind int, extraCodec string) []string {
 		}
 		out = append(out, "application/grpc+"+n, "application/grpc-web+"+n)
 	}
-	return append(out, "application/grpc", "application/grpc-web")
+	out = append(out, "application/grpc", "application/grpc-web")
+	// a set: each accepted type once
+	var set []string
+	for _, t := range out {
+		if !containsStr(set, t) {
+			set = append(set, t)
+		}
+	}
+	return set
 }
 
 func containsStr(set []string, s string) bool {
@@ -136,7 +145,7 @@ func c12Body(kind int, ct string) []byte {
 //verif:harness property=C12 stubs=json,wire shard=kind:4
 func HarnessC12Guards() {
 	kind := nondetChoice("kind", 4)
-	extraCodec := c12ExtraNames[nondetChoice("extraCodec", 3)]
+	extraCodec := c12ExtraNames[nondetChoice("extraCodec", 4)]
 	obs := &c12Observer{}
 	handler := c12Handler(kind, obs, extraCodec)
 	accepted := c12Accepted(kind, extraCodec)
